@@ -282,6 +282,8 @@ def run(facts, tr, rep):
         if sw is None or sw.kind != "bool" or not g.live(bb):
             continue
         cm = normalise_cmp(tr, peel(tr.expand(tr.operand(hb, sw.cond, (bb, len(g.stmts(bb)))), upvars=True, params=True)))
+        if cm and mentions_field(tr, cm[1], "max_hedged_attempts") and not mentions_field(tr, cm[2], "max_hedged_attempts"):
+            cm = ({"Le": "Ge", "Lt": "Gt", "Ge": "Le", "Gt": "Lt"}.get(cm[0], cm[0]), cm[2], cm[1])       # `max <= spawned + 1`
         if cm and mentions_field(tr, cm[2], "max_hedged_attempts"):
             if cm[0] == "Ge":
                 exhausted.append((bb, sw.variants["true"]))
